@@ -403,7 +403,8 @@ func (w *World) hsMaterialise(disk []HEntry) {
 	}
 }
 
-var hsEpoch = time.Date(2001, 2, 3, 4, 5, 6, 0, time.UTC)
+// hsEpoch lies before the start of the bubble's clock (2000-01-01): files carrying it are old, not "from the future"
+var hsEpoch = time.Date(1999, 2, 3, 4, 5, 6, 0, time.UTC)
 
 func (w *World) hsAbs(list []string) []string {
 	out := make([]string, len(list))
